@@ -14,8 +14,12 @@ def norm_panic(msg):
     return m.strip()[:120]
 
 
-def run(ctx, props, plans, design_cfgs=(), refinement=False, report_deaths=False):
+def run(ctx, props, plans, design_cfgs=(), refinement=False, report_deaths=False, suite=None):
     cov, mismatches, inconcl = collect(ctx, props, plans, design_cfgs, refinement, report_deaths)
+    if suite:
+        # code -> spec direction: the repository's own tests run under the invariant monitor
+        import suitemon
+        cov.update(suitemon.run_suite(ctx, props, kind=suite))
     rc = ctx.finish("model_checking", extra_cov=cov)
     return conclude(rc, mismatches, inconcl, refinement)
 
